@@ -165,6 +165,9 @@ func recvArg(ci ssa.CallInstruction) ssa.Value {
 	if c.IsInvoke() {
 		return c.Value
 	}
+	if r := an.BoundReceiver(ci); r != nil {
+		return r
+	}
 	if len(c.Args) > 0 {
 		return c.Args[0]
 	}
@@ -176,7 +179,7 @@ func arg(ci ssa.CallInstruction, i int) ssa.Value {
 	c := ci.Common()
 	off := 0
 	if !c.IsInvoke() {
-		if f := an.StaticCallee(ci); f != nil && f.Signature.Recv() != nil {
+		if f := an.StaticCallee(ci); f != nil && f.Signature.Recv() != nil && an.BoundReceiver(ci) == nil {
 			off = 1
 		}
 	}
@@ -757,4 +760,43 @@ func heapInsert(c *an.Ctx, field string) *effect {
 		}
 		return false, nil
 	})
+}
+
+// ---- return cases: one per way a function can return a value --------------------------------------------------------
+//
+// `return a` in three places and a single `return result` behind a merge are the same function. returnCases splits every
+// return whose result idx is a phi into one case per incoming edge (recursively), each with the facts that hold when the
+// function returns that way: the facts dominating the edge's source, the facts of the edge itself, and – for a boolean leaf
+// that is not a constant – the leaf itself being true.
+type retCase struct {
+	ret   *ssa.Return
+	val   ssa.Value // leaf value (never a phi unless the depth bound was hit)
+	facts []an.Fact
+}
+
+func returnCases(fn *ssa.Function, idx int) []retCase {
+	var out []retCase
+	var split func(r *ssa.Return, v ssa.Value, facts []an.Fact, depth int)
+	split = func(r *ssa.Return, v ssa.Value, facts []an.Fact, depth int) {
+		v = an.Resolve(v)
+		phi, ok := v.(*ssa.Phi)
+		if !ok || depth > 4 {
+			out = append(out, retCase{ret: r, val: v, facts: facts})
+			return
+		}
+		for i, e := range phi.Edges {
+			pred := phi.Block().Preds[i]
+			fs := append([]an.Fact{}, facts...)
+			fs = append(fs, an.FactsAt(pred)...)
+			fs = append(fs, an.FactsOnEdge(an.Edge{From: pred, To: phi.Block()})...)
+			split(r, e, fs, depth+1)
+		}
+	}
+	for _, r := range an.Returns(fn) {
+		if idx >= len(r.Results) {
+			continue
+		}
+		split(r, r.Results[idx], an.FactsAt(r.Block()), 0)
+	}
+	return out
 }
